@@ -197,6 +197,16 @@ func (c *checker) attempt(sc scenario, script ctrl.Script, dead bool) ctrl.Resul
 	if res.SchedFirst != 0 {
 		first = res.SchedFirst
 	}
+	if c.s.Quiet && c.s.Concurrency > 1 {
+		// unscheduled goroutines: the numbering of calls is not the order in which
+		// the errgroup saw the errors; any DeadlineExceeded fault that was reached
+		// may be the one g.Wait returned
+		for p, k := range script {
+			if k == ctrl.FDeadline && p < len(res.Trace) && res.Trace != "-" && res.Trace[p] >= 'a' && res.Trace[p] <= 'z' {
+				first = ctrl.FDeadline
+			}
+		}
+	}
 	cls := ""
 	if first == ctrl.FDeadline {
 		cls = FindingDeadline
